@@ -33,7 +33,35 @@ func C04_text_fragments() {
 	wire = append(wire, vEncode(vFrame{fin: true, op: 0, masked: server, key: key, payload: p[s2:]})...)
 	wire = append(wire, vEncode(vFrame{fin: true, op: 1, masked: server, key: key, payload: []byte{'o', 'k'}})...)
 	src := vNewSrc(wire, vChoose("mode", 2), "chunk")
-	switch vChoose("api", 3) {
+	switch vChoose("api", 4) {
+	case 3:
+		// the caller takes one or two bytes (possibly stopping inside a character) and discards
+		// the rest: the next message is delivered as by a new reader
+		rd := &Reader{Source: &src, State: vSide(server), CheckUTF8: true,
+			OnIntermediate: func(h ws.Header, r io.Reader) error {
+				_, err := vReadAllB(r, 16)
+				if err == io.EOF {
+					err = nil
+				}
+				return err
+			}}
+		_, err := rd.NextFrame()
+		vAssert(err == nil, "textfrag.first_ok")
+		if err != nil {
+			return
+		}
+		one := make([]byte, 1)
+		for i := vChoose("take", 2); i >= 0; i-- {
+			rd.Read(one)
+		}
+		vAssert(rd.Discard() == nil, "textfrag.discard_ok")
+		h, err := rd.NextFrame()
+		vAssert(vAnd(err == nil, h.OpCode == ws.OpText), "textfrag.next_after_discard_ok")
+		if err != nil {
+			return
+		}
+		got, err := vReadAllB(rd, 16)
+		vAssert(vAnd(err == io.EOF, vEqBytes(got, []byte{'o', 'k'})), "textfrag.next_after_discard_payload")
 	case 0:
 		B := []int{1, 16}[vChoose("B", 2)]
 		rd := &Reader{Source: &src, State: vSide(server), CheckUTF8: true,
